@@ -113,6 +113,15 @@ class Mat:
         return NotImplemented
 
     def __aovc_binop__(self, it, op, other, swapped):
+        if op in ("Add", "Sub") and is_scalar(other) and not isinstance(other, (Cx, Polar)):
+            # broadcasting a scalar over a vector / matrix: scalar * ONES
+            alg = algebra(it)
+            tot = 1
+            for d_ in self.shape:
+                tot = r_mul(tot, d_)
+            nm = "ones[%s]" % simp(tot)
+            alg.sym(nm, list(self.shape))
+            other = Mat(it, {((nm, False),): other}, self.shape)
         if op in ("Add", "Sub"):
             o = to_mat(it, other)
             a, b = (o, self) if swapped else (self, o)
@@ -173,6 +182,8 @@ def to_mat(it, x, name=None):
         nm = name or getattr(x, "mat_name", None) or describe_arr(it, x)
         frozen = x.frozen()
         s = alg.sym(nm, list(x.shape), arr=frozen)
+        if not hasattr(s, "src"):
+            s.src = x
         # symmetry of a square functional array is discharged pointwise (solver) once, when the symbol is created
         if x.ndim == 2 and dim_eq(x.shape[0], x.shape[1]) is True and not hasattr(s, "_symm_checked"):
             s._symm_checked = True
@@ -289,6 +300,11 @@ class ChoFactor:
 
 def cho_factor(it, x):
     A = to_mat(it, x)
+    (an, at), = list(A.poly)[0]
+    # Cholesky succeeds iff the matrix is (numerically) positive definite; otherwise scipy raises LinAlgError: both outcomes are explored
+    pd = z3.Bool("positive_definite(%s)" % an)
+    if not it.ctx.branch(pd, "cho_factor"):
+        raise PyException("LinAlgError", "matrix is not positive definite")
     return ChoFactor(A)
 
 
